@@ -201,11 +201,16 @@ def mk_pulse(s: dict):
 class Interp:
     """Interprets op records against a live Sequence."""
 
-    def __init__(self, prog: dict):
+    def __init__(self, prog: dict, register=None, values=None):
+        """register: a concrete register to use instead of the program's
+        (qubit references still resolve against the program's declared ids);
+        values: name -> value, evaluate expressions directly (no variables)."""
         self.prog = prog
         self.device = mk_device(prog["device"])
-        self.register = mk_register(prog["register"])
+        self.register = mk_register(prog["register"]) if register is None else register
         self.qids = register_qubit_ids(prog["register"])
+        if values is not None:
+            self.values = values
         self.seq = Sequence(self.register, self.device)
         self.vars: dict = {}
 
@@ -316,6 +321,12 @@ class Interp:
                     bx=op["b"][0], by=op["b"][1], bz=op["b"][2])
             return "set_magnetic_field", tuple(op["b"]), {}
         if o in ("target", "target_index"):
+            if o == "target_index" and not isinstance(op["qubits"], list):
+                # a Parametrized / array / scalar given as such
+                q0 = op["qubits"]
+                if kwstyle:
+                    return o, (), dict(qubits=q0, channel=self.chan(op["ch"]))
+                return o, (q0, self.chan(op["ch"])), {}
             if o == "target":
                 qs = [self.qubit(q) for q in op["qubits"]]
             else:
@@ -493,12 +504,22 @@ def ev_expr(e, env_, symbolic: bool):
     if f == "abs":
         return abs(a)
     if f == "round":
-        return round(a)
-    if symbolic or not isinstance(a, (int, float)):
-        import numpy as _np
+        return round(a) if symbolic else float(_np_round(a))
+    if symbolic:
+        import math as _m
 
-        return getattr(_np, f)(a)
+        if f == "ceil":
+            return _m.ceil(a)
+        if f == "floor":
+            return _m.floor(a)
+        return getattr(a, f)()
     return float(_np_fn(f)(a))
+
+
+def _np_round(a):
+    import numpy as _np
+
+    return _np.round(a)
 
 
 def has_expr(x) -> bool:
